@@ -62,11 +62,11 @@ Proof. exact early_stop_sound_above. Qed.
 Theorem C07_aggregate_path_restores : forall (i : N) (x' : ielt) (t : itree), iid x' = i -> annot_exact t ->
   annot_exact (iaggregate_path true i (set_elt iid i x' t))
   /\ iaggregate_path true i (set_elt iid i x' t) = iaggregate_path false i (set_elt iid i x' t).
-Proof.
-  intros i x' t Hi Hx. apply ann_ok_exact in Hx.
-  destruct (set_then_aggregate_path ielt N iid iagg N.eqb N.eqb_eq i x' t Hi Hx) as [A B].
-  split; [apply ann_ok_exact, A|exact B].
-Qed.
+Proof. exact iaggregate_path_restores. Qed.
+
+(* on an exactly annotated tree aggregate_path is the identity (it stops at the first node) *)
+Theorem C07_aggregate_path_clean : forall (i : N) (t : itree), annot_exact t -> iaggregate_path true i t = t.
+Proof. exact iaggregate_path_clean. Qed.
 
 (* ---- the search *)
 (* the test in the source, (lo <= lb <= hi) || (lb <= lo <= ub), is the property's lo <= ub /\ lb <= hi
@@ -122,6 +122,7 @@ Print Assumptions C07_annotation_exact_step.
 Print Assumptions C07_early_stop_sound.
 Print Assumptions C07_early_stop_sound_above.
 Print Assumptions C07_aggregate_path_restores.
+Print Assumptions C07_aggregate_path_clean.
 Print Assumptions C07_source_test_is_overlap.
 Print Assumptions C07_overlaps_exact.
 Print Assumptions C07_overlaps_membership.
